@@ -179,17 +179,27 @@ func (S *LevelDbStore) Update(store CRLStore) error {
 	verifhook.Hit("leveldb.update.old_closed")
 	err = S.closeDbWithRetries(levelDbNew.Db)
 	if err != nil {
+		S.reopenAfterFailedUpdate()
 		return err
 	}
 	verifhook.Hit("leveldb.update.new_closed")
 	levelDBPath := filepath.Join(S.BasePath, S.Identifier)
 	levelDBPathTemp, err := S.renameWithRetriesToTempDir(S.LevelDBPath)
 	if err != nil {
+		S.reopenAfterFailedUpdate()
 		return err
 	}
 	verifhook.Hit("leveldb.update.old_moved_aside")
 	err = S.renameWithRetries(levelDbNew.LevelDBPath, levelDBPath)
 	if err != nil {
+		//roll back, the previous database must stay in place if the new one can not replace it
+		err2 := S.renameWithRetries(levelDBPathTemp, levelDBPath)
+		if err2 != nil {
+			//the store stays closed, reads report an error until the next restart
+			S.Logger.Warn("failed to move previous database back after a failed update", zap.String("path", levelDBPathTemp), zap.Error(err2))
+			return err
+		}
+		S.reopenAfterFailedUpdate()
 		return err
 	}
 
@@ -206,6 +216,17 @@ func (S *LevelDbStore) Update(store CRLStore) error {
 	S.Db = db
 	verifhook.Hit("leveldb.update.reopened")
 	return nil
+}
+
+// reopenAfterFailedUpdate opens the database of this store again after an update failed half way.
+// If this is not possible the store stays closed and every read reports an error.
+func (S *LevelDbStore) reopenAfterFailedUpdate() {
+	db, err := openDbWithRetries(S.LevelDBPath, S.Logger)
+	if err != nil {
+		S.Logger.Warn("failed to reopen database after a failed update", zap.String("path", S.LevelDBPath), zap.Error(err))
+		return
+	}
+	S.Db = db
 }
 
 func (S *LevelDbStore) closeDbWithRetries(db *leveldb.DB) error {
